@@ -60,10 +60,24 @@ def _link_ops(fn):
     return ops
 
 
+def _links_change_only_in_search(ctx: Ctx, api):
+    """Who may change the link structure and the row stack: only the search closures, where every cover is undone by
+    its uncover and every push by its pop.  A cover or a push in solve_exact_cover's own body (a presolve step) has no
+    partner; whatever it removes stays removed for the whole search."""
+    bad = []
+    for n in own_nodes(api.node):
+        if isinstance(n, ast.Call) and isinstance(n.func, ast.Name) and n.func.id in ("_cover", "_uncover"):
+            bad.append(n)
+        elif isinstance(n, ast.Call) and isinstance(n.func, ast.Attribute) and isinstance(n.func.value, ast.Name) and n.func.value.id == "current" and n.func.attr in ("append", "pop", "extend", "insert", "remove", "clear"):
+            bad.append(n)
+    ctx.ob("C07-O2", "R27 WRITE-OWNERSHIP", api, "columns are covered / uncovered and rows pushed / popped only inside the search closures (solve_exact_cover's own body does neither)", not bad, f"`{ast.unparse(bad[0])[:60]}` at line {bad[0].lineno} runs outside the search: it has no inverse, and a ring that is walked while it is being unlinked visits columns that are already covered" if bad else "", node=bad[0] if bad else api.node)
+
+
 def run(ctx: Ctx):
     cover = ctx.func("dlx", "_cover")
     uncover = ctx.func("dlx", "_uncover")
     api = ctx.func("dlx", "solve_exact_cover")
+    ctx.step(_links_change_only_in_search, api)
     # ---- O2 (shape-independent part, decided before any search anchor is needed): wherever a closure of
     # solve_exact_cover covers a sequence of columns in a loop and uncovers it in another, the second loop runs the
     # sequence backwards - a ring walked right is undone walking left, a list walked forwards is undone reversed
@@ -491,7 +505,16 @@ def _v_shared_trivial_result(tree):
         raise M.Skip("trivial find_all answer not found")
 
 
+def _v_presolve_forced_rows(tree):
+    g = M.find_func(tree, "solve_exact_cover")
+    k = [i for i, st in enumerate(g.body) if isinstance(st, ast.FunctionDef) and st.name == "search"]
+    if not k:
+        raise M.Skip("search closure not found")
+    g.body[k[0]:k[0]] = M.stmts("col = root.right\nwhile col is not root:\n    if col.size == 1:\n        row_node = col.down\n        _cover(col)\n        current.append(row_node.row)\n        node = row_node.right\n        while node is not row_node:\n            _cover(node.column)\n            node = node.right\n    col = col.right")
+
+
 VARIANTS = [
+    M.Variant("presolve loop covers forced rows while walking the header ring (seed C07-O)", DLX, _v_presolve_forced_rows, "C07-O2"),
     M.Variant("the trivial find_all answer is one module-level Result shared by all calls (seed C07-N)", DLX, _v_shared_trivial_result, "C07-G3"),
     M.Variant("row columns collected in a list, covered and uncovered in the same order (seed C07-K)", DLX, _v_list_uncover_forward, "C07-O2"),
     M.Variant("uncover walks in cover's direction", DLX, _v_uncover_same_direction, "C07-O1"),
